@@ -450,6 +450,10 @@ impl Model {
               return if both_numeric { self.either_unknown(name, "f6-source-kind", combo) } else { self.must_err("f6-source-kind", combo) };
             }
             let mut distinct = pos.clone(); distinct.sort(); distinct.dedup();
+            if vector && one && sd.len() < pos.len() {
+              // too few source elements: must be rejected (index vectors), masks follow Mech's positional reading
+              return if matches!(sub, Sub::One(Ix::V(_)) | Sub::One(Ix::R(..)) | Sub::One(Ix::RX(..)) | Sub::One(Ix::All)) { self.must_err("f6-vector-source-too-short", combo) } else { self.either_unknown(name, "f6-vector-source-too-short", combo) };
+            }
             if vector && one && sd.len() != pos.len() { return self.either_unknown(name, "vector-source-length-mismatch", combo); }
             if !vector || !one || distinct.len() != pos.len() { return self.either_unknown(name, "unsure-vector-source", combo); }
             for (i, p) in pos.iter().enumerate() { nd[*p] = sd[i].clone(); }
